@@ -124,16 +124,17 @@ func (c *Ctx) isMutator(fn *ssa.Function, depth int) bool {
 func (c *Ctx) ruleErrorChangesNothing(fn *ssa.Function) {
 	type mpoint struct {
 		blk  *ssa.BasicBlock
+		at   ssa.Instruction
 		desc string
 		// for calls: only blocks behind the success edge
 		call *ssa.Call
 	}
 	var pts []mpoint
 	for _, m := range c.listMutations(fn) {
-		pts = append(pts, mpoint{blk: m.Block(), desc: "store at " + c.IPos(m)})
+		pts = append(pts, mpoint{blk: m.Block(), at: m, desc: "store at " + c.IPos(m)})
 	}
 	for _, call := range c.mutatorCalls(fn) {
-		pts = append(pts, mpoint{blk: call.Block(), desc: "call of " + name(ir.Callee(call)) + " at " + c.IPos(call), call: call})
+		pts = append(pts, mpoint{blk: call.Block(), at: call, desc: "call of " + name(ir.Callee(call)) + " at " + c.IPos(call), call: call})
 	}
 	ok, det := true, ""
 	for _, p := range pts {
@@ -193,7 +194,18 @@ func (c *Ctx) ruleErrorChangesNothing(fn *ssa.Function) {
 					// mutator's own atomicity; a failure of a call on another object (the entry or
 					// list being validated) after the collection was changed is not
 					sameRecv := later != nil && len(later.Call.Args) > 0 && len(fn.Params) > 0 && ir.StripConv(later.Call.Args[0]) == ssa.Value(fn.Params[0])
-					if later != nil && later != p.call && !sameRecv {
+					// ... and it really comes after the change (not a call whose success was
+					// observed before the collection was touched)
+					after := false
+					if later != nil {
+						if later.Block() == st {
+							after = p.at == nil || later.Block() != p.at.Block() || precedes(p.at, later)
+						} else {
+							seen, _ := ir.Reach(fn, st, nil)
+							after = seen[later.Block().Index] && !later.Block().Dominates(st)
+						}
+					}
+					if later != nil && later != p.call && !sameRecv && after {
 						ok, det = false, "the return at "+c.IPos(r)+" hands on the error of a later call ("+ir.CallID(callOf(r.Results[len(r.Results)-1]))+") after the "+p.desc+": a failure there leaves the collection modified"
 					}
 				}
